@@ -9,7 +9,7 @@ RULE = ('random policy configurations (default / user / group / at_console / man
         'broadcast messages of all four types with fields present or absent, replies requested and not, match rules incl. eavesdropping; the '
         'model applies PolicyOps.tla (last matching rule wins, default deny) to every send, every receive and every own; '
         'every fourth scenario is a focused one: a rule naming a bus name (as sender, destination or prefix) while two connections hold that '
-        'name, one of them queued, and the primary releases half-way; distinct = distinct (configuration, history) texts')
+        'name, one of them queued, and the primary releases half-way; every third history replaces the whole policy half-way through ReloadConfig; distinct = distinct (configuration, history) texts')
 W = {'req': 2, 'rel': 0.5, 'query': 0.3, 'addmatch': 0.8, 'rmmatch': 0.2, 'signal': 6, 'call': 5, 'reply': 3.5,
      'usignal': 2, 'close': 0.3, 'driver_other': 0.2, 'nodest': 0.1}
 
@@ -75,6 +75,10 @@ def gen(rng, i):
         cast.append({'ops': {str(s): ops}})
     n0 = len(g.slots)
     scn['rounds'] = scn['rounds'][:n0] + cast + scn['rounds'][n0:]
+    # every third history replaces the whole policy while the bus runs (ReloadConfig by whoever may call it)
+    if i % 3 == 1:
+        at = rng.randrange(n0 + len(cast), len(scn['rounds']) + 1)
+        scn['rounds'].insert(at, {'ops': {str(rng.choice(g.slots)): [{'k': 'reload', 'cfg': {'policy_ctxs': policygen.random_ctxs(rng)}}]}})
     return scn
 
 
